@@ -334,3 +334,62 @@ def immersion_exact(rng, max_reflections=1, numel=None, numscat=None, tilt=True)
     views = bim.make_views(exo, probe.to_oriented_points(), scat_op, max_number_of_reflection=max_reflections, tfm_unique_only=False)
     arim.ray.ray_tracing(views.values(), convert_to_fortran_order=True)
     return dict(probe=probe, views=views, exo=exo, scat_pts=scat_pts, couplant=couplant, block=block, H=H, numel=numel)
+
+
+def check_time_objects(ctx, n=40):
+    """`arim.Time` (shared by C11 and C19): samples are `start + k*step`, `start/end/step/len` describe them,
+    `from_vect` recovers the axis, `window(tmin, tmax, endpoint_left, endpoint_right)` selects exactly the samples in the
+    closed / half-open / open interval (also for limits outside the record and on samples), `closest_index` is the nearest sample"""
+    import arim
+
+    rng = ctx.rng
+    for it in range(n * ctx.scale):
+        num = int(rng.integers(1, 40))
+        step = float(rng.choice([1e-8, 2.0 ** -24, 0.1, 4e-8, 1.0, rng.uniform(1e-9, 1e-6)]))
+        start = float(rng.choice([0.0, -3 * step, 7.5 * step, rng.uniform(-1e-6, 1e-6)]))
+        t = arim.Time(start, step, num)
+        cj = {"op": "Time", "start": start, "step": step, "num": num}
+        ctx.case(("time", start, step, num), num >= 2)
+        want = np.array([start + k * step if num > 1 else start for k in range(num)])
+        if num > 1:
+            want = np.arange(num, dtype=float) * step + start
+        ok = (len(t) == num and np.array_equal(t.samples, want) and t.start == want[0] and t.end == want[-1] and t.step == step)
+        if not ok:
+            ctx.violate("Time(start, step, num) is not the axis start + k*step with its start/end/step/len", cj, {"kind": "time_axis"})
+            continue
+        if num >= 2:
+            t2 = arim.Time.from_vect(t.samples)
+            if not (len(t2) == num and np.allclose(t2.samples, t.samples, rtol=0, atol=1e-9 * step * num + 1e-15 * abs(start)) and abs(t2.step - step) <= 1e-9 * step):
+                ctx.violate("Time.from_vect does not recover the axis it is given", cj, {"kind": "time_axis"})
+        smp = t.samples
+        for _ in range(6):
+            def lim():
+                u = rng.random()
+                if u < 0.15:
+                    return None
+                if u < 0.55:
+                    return float(rng.choice(smp))
+                if u < 0.85:
+                    return float(rng.choice(smp) + rng.choice([-1, 1]) * step / 3)
+                return float(rng.choice([smp[0] - 2.5 * step, smp[-1] + 2.5 * step]))
+            tmin, tmax = lim(), lim()
+            el, er = bool(rng.integers(0, 2)), bool(rng.integers(0, 2))
+            sel = np.ones(num, dtype=bool)
+            if tmin is not None:
+                sel &= (smp >= tmin) if el else (smp > tmin)
+            if tmax is not None:
+                sel &= (smp <= tmax) if er else (smp < tmax)
+            got = np.zeros(num, dtype=bool)
+            try:
+                got[t.window(tmin, tmax, endpoint_left=el, endpoint_right=er)] = True
+            except Exception as e:
+                ctx.violate(f"Time.window raised {type(e).__name__}", dict(cj, tmin=tmin, tmax=tmax, endpoint_left=el, endpoint_right=er), {"kind": "time_window"})
+                continue
+            ctx.count(f"window:{'[' if el else '('}{')' if not er else ']'}")
+            if not np.array_equal(got, sel) and sel.any():
+                ctx.violate(f"Time.window(tmin={tmin}, tmax={tmax}, endpoint_left={el}, endpoint_right={er}) selects samples {np.flatnonzero(got).tolist()}, "
+                            f"the samples in the interval are {np.flatnonzero(sel).tolist()}", dict(cj, tmin=tmin, tmax=tmax, endpoint_left=el, endpoint_right=er), {"kind": "time_window"})
+            x = float(rng.uniform(smp[0] - 2 * step, smp[-1] + 2 * step))
+            k = int(t.closest_index(x))
+            if abs(smp[k] - x) > np.abs(smp - x).min():
+                ctx.violate(f"Time.closest_index({x}) = {k} is not the nearest sample", dict(cj, x=x), {"kind": "time_closest"})
